@@ -660,6 +660,17 @@ struct Ctx<'a> {
     verbose: bool,
 }
 
+/// (device, inode, status flags, descriptor flags) of an open descriptor
+fn fd_ident(fd: i32) -> Option<(u64, u64, i32, i32)> {
+    unsafe {
+        let mut st: libc::stat = std::mem::zeroed();
+        if libc::fstat(fd, &mut st) != 0 {
+            return None;
+        }
+        Some((st.st_dev as u64, st.st_ino as u64, libc::fcntl(fd, libc::F_GETFL), libc::fcntl(fd, libc::F_GETFD)))
+    }
+}
+
 fn fd_map() -> BTreeMap<i32, String> {
     sysx::fd_table().into_iter().collect()
 }
@@ -710,7 +721,10 @@ fn run_case(s: &mut Scn, env: &mut Env, faults: &[Fault], drop_close: Option<i32
     }
     let parent = PARENT.load(Ordering::Relaxed);
     let given = env.given.clone();
+    let lent = env.lent.clone();
+    env.complaints.clear();
     apply_start();
+    let lent_before: Vec<Option<(u64, u64, i32, i32)>> = lent.iter().map(|fd| fd_ident(*fd)).collect();
     let before = fd_map();
     let mut plan = FdPlan { parent, faults: faults.to_vec(), hit: vec![false; faults.len()], close_err: None, pairs: HashMap::new(), sock: HashSet::new(), shared: cx.shared };
     // ---- phase A: the operation
@@ -894,18 +908,30 @@ fn run_case(s: &mut Scn, env: &mut Env, faults: &[Fault], drop_close: Option<i32
             ),
         }
     }
-    // descriptors handed over as Stdio::RawFd are consumed by a spawn that succeeds
-    if s.given_consumed_on_ok && !is_err {
-        for fd in &given {
-            if sh.open.get(fd) == Some(&Origin::Given) {
-                leaked_fds.push(*fd);
-                r.violation(
-                    &format!("C12:{name}:fd-left-open:handed-over-rawfd"),
-                    format!("{name}, {ctxt}: returned {res_txt}; descriptor {fd}, handed over as Stdio::RawFd, was neither passed on and closed nor otherwise consumed — it is still open in the parent although spawn consumes such descriptors on every other path"),
-                    cj.clone(),
-                );
-            }
+    // descriptors lent as Stdio::RawFd stay the caller's: open, the same file, the same flags — Ok or Err
+    for (fd, was) in lent.iter().zip(lent_before.iter()) {
+        let now = fd_ident(*fd);
+        match (was, &now) {
+            (Some(_), None) => r.violation(
+                &format!("C12:{name}:closes-foreign-fd"),
+                format!("{name}, {ctxt}: returned {res_txt}; descriptor {fd} was only lent to the operation (Stdio::RawFd) and is closed afterwards"),
+                cj.clone(),
+            ),
+            (Some(a), Some(b)) if (a.0, a.1) != (b.0, b.1) => r.violation(
+                &format!("C12:{name}:closes-foreign-fd"),
+                format!("{name}, {ctxt}: returned {res_txt}; descriptor {fd}, only lent to the operation (Stdio::RawFd), no longer refers to the same file afterwards (it was closed and the number re-used)"),
+                cj.clone(),
+            ),
+            (Some(a), Some(b)) if a != b => r.violation(
+                &format!("C12:{name}:alters-foreign-fd"),
+                format!("{name}, {ctxt}: returned {res_txt}; descriptor {fd}, only lent to the operation (Stdio::RawFd), changed its flags in the parent: (status flags, descriptor flags) {:#o},{} -> {:#o},{}", a.2, a.3, b.2, b.3),
+                cj.clone(),
+            ),
+            _ => {}
         }
+    }
+    for c in env.complaints.drain(..) {
+        r.violation(&format!("C12:{name}:closes-foreign-fd"), format!("{name}, {ctxt}: returned {res_txt}; {c}"), cj.clone());
     }
     // mappings (setup_io_uring): on failure nothing may stay mapped
     if is_err && !sh.maps.is_empty() {
@@ -1201,7 +1227,9 @@ fn c12(args: &Args) -> Report {
          ARGUMENT DOMAIN: every operation taking a Duration / path / socket address / count is also run (scenarios named op[arg=value]) with boundary and out-of-domain values \
          (Duration ZERO, 1ns, Duration::MAX, i64::MAX s, i64::MAX+1 s; paths empty, 4200 bytes, 300-byte component, in a missing directory, 510..600-byte nested; unix socket paths empty, 107, 108, 4200 bytes; \
          inet addresses 0.0.0.0, port 0, 65535, broadcast, non-local; counts 0, 1, huge) — quick: fault-free case + drop, thorough: also every single deviation and the other start states. \
-         STDIO GRID: spawn with every (stdin,stdout,stderr) in {{Inherit,Null,MakePipe,RawFd(fresh)}}^3 (quick: up to single deviations), a RawFd must be consumed when spawn returns Ok. \
+         STDIO GRID: spawn with every (stdin,stdout,stderr) in {{Inherit,Null,MakePipe,RawFd(fresh)}}^3 (quick: up to single deviations); a descriptor named by Stdio::RawFd is only LENT: after spawn returns (Ok or Err, every deviation) \
+         it must be open in the parent, the same file, with the same status and descriptor flags (closing it = closes-foreign-fd); aliasing cases: one RawFd for two/three streams, RawFd(0..2) in several permutations, \
+         one Command (no-alloc: one descriptor) spawned twice and three times with an unrelated open() of the caller in between, a File lending as_raw_fd() that is used and dropped afterwards (exactly one close). \
          FEATURE SET: this report is from the build `{}`; the crate h-fd/noalloc builds the same sources against tiny-std without `alloc` and runs the entry points that differ there (the free function process::spawn, create_dir_all's stack buffer). \
          START STATES: the whole catalogue is run from three descriptor tables — as inherited (0,1,2 occupied), descriptor 0 closed, descriptors 0,1,2 closed \
          (the shard's own stdio is parked above 100 and the low numbers are freed only while the operation and the drop of its result run, so the operation is handed 0/1/2); \
